@@ -126,6 +126,7 @@ func serverVerifyAuthenticate(m *parsedMsg, sc []byte, password string, ess bool
 	key := ref.NTOWFv2(nt, user, dom)
 	v2 = verifyNTLMv2(ntResp, sc, key, []altKey{
 		{"domain-uppercased-in-key-only", ref.NTOWFv2(nt, user, strings.ToUpper(dom))},
+		{"user-not-uppercased-in-key", ref.HMACMD5(nt[:], ref.UTF16LE(user+dom))},
 	})
 	problems = append(problems, v2.Problems...)
 	problems = append(problems, verifyLMv2(lmResp, sc, key)...)
